@@ -435,6 +435,91 @@ Proof.
   { rewrite numeric_literal_ups. destruct (numeric_literal (c :: r)) as [[[ty pl] n] errs].
     rewrite firstn_ups, blen_ups. cbn [lx_obs]. rewrite Hset. reflexivity. }
   rewrite up_ns. destruct (is_valid_unicode_sas_name_start c).
-  { admit. }
-  admit.
-Admitted.
+  { rewrite (take_while_ups _ up_ident), len_ups, (forallb_ups _ up_ascii), blen_ups, upper_ups.
+    destruct (negb (forallb is_ascii (take_while ident_char (c :: r))) || (MAX_KEYWORDS_LEN <? blen (take_while ident_char (c :: r))));
+      [cbn [lx_obs]; rewrite Hset; reflexivity|].
+    destruct (parse_keyword (upper (take_while ident_char (c :: r)))); [cbn [lx_obs]; rewrite Hset; reflexivity|].
+    destruct (assoc_chars (upper (take_while ident_char (c :: r))) DATALINES_WORDS) as [four|]; [|cbn [lx_obs]; rewrite Hset; reflexivity].
+    rewrite Hv, skipn_N_ups, ws_then_semi_ups.
+    destruct (if match rs_prev st2 with Some p => tt_eqb p T_SEMI | None => true end
+              then ws_then_semi (skipn_N (N.to_nat (len (take_while ident_char (c :: r)))) (c :: r)) 0 else None) as [k|];
+      [|cbn [lx_obs]; rewrite Hset; reflexivity].
+    rewrite skipn_N_ups, datalines_data_ups.
+    destruct (datalines_data _ 0 (if four then 4%nat else 1%nat)) as [dn found].
+    rewrite ?skipn_N_ups, ?firstn_ups, ?blen_ups, ?count_semis_upto_ups.
+    cbn [lx_obs]. rewrite (Hset false T_SEMI). reflexivity. }
+  rewrite (up_eqb c_star c eq_refl eq_refl). destruct (c =? c_star).
+  { rewrite Hp. destruct (rs_pending st2).
+    - rewrite (up_eqb c_star c2 eq_refl eq_refl). destruct (c2 =? c_star); [apply Two|apply One].
+    - rewrite find_semi_ups. cbn [lx_obs]. rewrite Hobs. reflexivity. }
+  repeat match goal with
+         | |- context [up ?x =? ?k] => rewrite (up_eqb k x eq_refl eq_refl)
+         end.
+  rewrite charformat_len_ups.
+  assert (Hsym : sym1 (up c) = sym1 c).
+  { unfold sym1. repeat match goal with |- context [up ?x =? ?k] => rewrite (up_eqb k x eq_refl eq_refl) end. reflexivity. }
+  rewrite Hsym.
+  repeat match goal with
+         | |- context [if ?b then _ else _] => destruct b
+         | |- context [match charformat_len ?x with _ => _ end] => destruct (charformat_len x)
+         | |- context [match sym1 ?x with _ => _ end] => destruct (sym1 x)
+         end; try apply One; try apply Two; cbn [lx_obs]; rewrite ?Hset; try reflexivity.
+  unfold st_obs. cbn [rs_pending rs_prev rs_litlen]. rewrite Hv, Hll. reflexivity.
+Qed.
+
+(** ** the whole reading *)
+Lemma reflex_loop_ups : forall fuel l pos st1 st2 toks errs, st_obs st1 = st_obs st2 ->
+  let '(T1, E1, s1) := reflex_loop fuel (ups l) pos st1 toks errs in
+  let '(T2, E2, s2) := reflex_loop fuel l pos st2 toks errs in
+  T1 = T2 /\ E1 = E2 /\ st_obs s1 = st_obs s2.
+Proof.
+  induction fuel as [|f IH]; intros l pos st1 st2 toks errs Hobs; cbn [reflex_loop].
+  - auto.
+  - destruct l as [|c r]; [cbn [ups map]; auto|].
+    change (ups (c :: r)) with (up c :: ups r). cbv iota. change (up c :: ups r) with (ups (c :: r)).
+    pose proof (lexeme_ups (c :: r) pos st1 st2 Hobs) as Hl.
+    destruct (lexeme (ups (c :: r)) pos st1) as [[[ts1 es1] n1] s1']. destruct (lexeme (c :: r) pos st2) as [[[ts2 es2] n2] s2'].
+    cbn [lx_obs] in Hl. injection Hl as Ht He Hn Hs1 Hs2 Hs3. subst ts2 es2 n2.
+    rewrite skipn_N_ups, firstn_ups, blen_ups.
+    apply IH. unfold st_obs. rewrite Hs1, Hs2, Hs3. reflexivity.
+Qed.
+
+Lemma macro_free_ups : forall l, macro_free (ups l) = macro_free l.
+Proof.
+  induction l as [|c r IH]; [reflexivity|]. cbn [ups map macro_free]. fold (ups r).
+  rewrite (up_eqb c_pct c eq_refl eq_refl), (up_eqb c_amp c eq_refl eq_refl), IH.
+  rewrite (drop_while_ups (fun x => x =? c_amp)) by (intros x; apply (up_eqb c_amp x eq_refl eq_refl)).
+  f_equal. destruct (c =? c_pct).
+  - destruct r as [|x q]; [reflexivity|]. cbn [ups map]. rewrite (up_eqb c_star x eq_refl eq_refl), up_ns. reflexivity.
+  - destruct (c =? c_amp); [|reflexivity].
+    destruct (drop_while (fun x => x =? c_amp) r) as [|x q]; [reflexivity|]. cbn [ups map]. rewrite up_ns. reflexivity.
+Qed.
+
+(** the reading of the upper-cased text: same tokens (type, channel, offset, payload), same errors *)
+Theorem reflex_ups (src : list char) :
+  let '(T1, E1, _) := reflex (ups src) in
+  let '(T2, E2, _) := reflex src in T1 = T2 /\ E1 = E2.
+Proof.
+  unfold reflex.
+  assert (Hsplit : (match ups src with c :: r => if c =? 65279 then (utf8_len c, r) else (0, ups src) | [] => (0, ups src) end) =
+                   (let '(bb, text) := match src with c :: r => if c =? 65279 then (utf8_len c, r) else (0, src) | [] => (0, src) end in (bb, ups text))).
+  { destruct src as [|c r]; [reflexivity|]. cbn [ups map]. rewrite (up_eqb 65279 c eq_refl eq_refl), up_utf8.
+    destruct (c =? 65279); reflexivity. }
+  rewrite Hsplit.
+  destruct (match src with c :: r => if c =? 65279 then (utf8_len c, r) else (0, src) | [] => (0, src) end) as [bb text].
+  rewrite length_ups.
+  pose proof (reflex_loop_ups (S (List.length text)) text bb (mkRstate false None [] 0) (mkRstate false None [] 0) [] [] eq_refl) as H.
+  destruct (reflex_loop (S (List.length text)) (ups text) bb _ [] []) as [[T1 E1] s1].
+  destruct (reflex_loop (S (List.length text)) text bb _ [] []) as [[T2 E2] s2].
+  destruct H as (H1 & H2 & _). split; assumption.
+Qed.
+
+(** two texts that differ only in the case of ASCII letters read alike *)
+Corollary reflex_case_insensitive (a b : list char) : ups a = ups b ->
+  let '(T1, E1, _) := reflex a in
+  let '(T2, E2, _) := reflex b in T1 = T2 /\ E1 = E2.
+Proof.
+  intros H. pose proof (reflex_ups a) as Ha. pose proof (reflex_ups b) as Hb. rewrite H in Ha.
+  destruct (reflex (ups b)) as [[T0 E0] l0]. destruct (reflex a) as [[T1 E1] l1]. destruct (reflex b) as [[T2 E2] l2].
+  destruct Ha as [A1 A2]. destruct Hb as [B1 B2]. split; congruence.
+Qed.
